@@ -112,7 +112,9 @@ def check_links(ctx, case):
                     lo1, hi1 = min(a[ax], b[ax]), max(a[ax], b[ax])
                     lo2, hi2 = min(c[ax], d[ax]), max(c[ax], d[ax])
                     gaps += [abs(lo2 - hi1), abs(lo1 - hi2)]
-                if dang < math.radians(0.05) or abs(dist - D) < 1.0 or min(gaps) < 1.0:
+                # candidate pairs come from an R-tree box query; the index stores float32 rounded outwards, which at degree
+                # coordinates widens a box by up to ~1.7 m per side: bounding boxes closer than 4 m to touching are borderline
+                if dang < math.radians(0.05) or abs(dist - D) < 1.0 or min(gaps) < 4.0:
                     ctx.count("skipped_borderline_link")
                     return
                 ctx.violation("C15:parallel-road-links-differ", wit,
